@@ -193,9 +193,12 @@ def run_property(modname, tier, seed=0, only=None, jobs=None):
             json.dump(dict(property=prop, tier=tier, obligation=r['name'], params=r['params'], label=v['label'],
                            message=v.get('message', ''), replayed=reproduced, inputs=v['inputs']),
                       open(path, 'w'), indent=1, default=str)
-            lines.append(f"  counterexample obligation={r['name']} label={v['label']} message={v.get('message','')[:300]} "
-                         f"inputs={json.dumps(v['inputs'], default=str)[:500]}")
-            lines.append(f'VIOLATION property={prop} replay={path}')
+            if n_viol <= 8:
+                lines.append(f"  counterexample obligation={r['name']} label={v['label']} message={v.get('message','')[:300]} "
+                             f"inputs={json.dumps(v['inputs'], default=str)[:500]}")
+                lines.append(f'VIOLATION property={prop} replay={path}')
+            elif n_viol == 9:
+                lines.append(f'  ... further violations are only written to {REPLAY_DIR}')
             exit_code = max(exit_code, 1)
     seen = set()
     for hit, name, v in known_hits:
